@@ -54,7 +54,7 @@ PROPS = {
     "C11": {
         "extra_oracles": ["C11e2e"],
         "props": "theories/Props/C11.v", "cluster": "url", "gen": "url",
-        "n": {"quick": 1500, "thorough": 20000}, "oracle_n": {"quick": 900, "thorough": 20000},
+        "n": {"quick": 1500, "thorough": 20000}, "oracle_n": {"quick": 900, "thorough": 20000}, "extra_oracle_n": {"quick": 900, "thorough": 3000},
         "rule": "correspondence: the url cluster (normalizeBase on ~40 random compositions of the spelling rewrites per location x 9 "
                 "locations + hand-picked edge strings; path.Clean/Dir/Join exhaustively over <=4 segments of {a,.,..,'',b.c}; "
                 "normalizeURI, jsonreference.New, rebase/denormalize streams shared with C12/C13); oracle: normalizeBase equal on "
@@ -264,7 +264,7 @@ PROPS = {
         "assumptions": ["loader is a function of the URL during one call", "documents are in normal form (reference objects carry only $ref)"],
     },
     "C04": {
-        "props": "theories/Props/C04.v", "gens": [("tables", "Codec/Gen_Tables.v")], "cluster": "expand", "gen": "expand", "ops": ["expand_spec"], "extra_oracles": ["C04ids"],
+        "props": "theories/Props/C04.v", "gens": [("tables", "Codec/Gen_Tables.v")], "cluster": "expand", "gen": "expand", "ops": ["expand_spec"], "extra_oracles": ["C04ids", "C04spell"],
         "n": {"quick": 120, "thorough": 1500}, "oracle_n": {"quick": 150, "thorough": 3000},
         "rule": 'correspondence: ExpandSpec on generated multi-document reference graphs (1-5 documents in the same/sub/parent directories and an http host; local, sibling, ./ ../, root-relative and absolute refs; nested-pointer and whole-document targets; escaped names; refs at every sub-schema keyword; parameters/responses/path items by $ref; cycles of every small topology; fault injection; all option combinations) + a bounded-exhaustive sample of graphs over <=3 definitions x <=2 documents; oracle: every entry point x the four SkipSchemas/ContinueOnError combinations returns within a time limit without panic, in a killable worker for graphs with ids; non-trivial: all',
         "trusted_base": COMMON_TB + ["Expand/Expand.v: hand model of expander.go / schema_loader.go / resolver.go on JSON trees (base-path threading, parent stack, memo of circular refs, resolver roots, deref chains, rebasing, SkipSchemas/ContinueOnError/AbsoluteCircularRef, cache and loader log); abstractions: sub-schemas visited in JSON member order, `#/` refs into the live root read the original root (outputs on cyclic graphs compared through unfoldings)",
@@ -300,7 +300,7 @@ PROPS = {
         "assumptions": ["loader is a function of the URL during one call", "documents are in normal form (reference objects carry only $ref)"],
     },
     "C10": {
-        "extra_oracles": ["C10shared"],
+        "extra_oracles": ["C10shared", "C10typed"],
         "props": "theories/Props/C10.v", "gens": [("tables", "Codec/Gen_Tables.v")], "cluster": "expand", "gen": "expand", "ops": ["expand_spec"],
         "n": {"quick": 120, "thorough": 1500}, "oracle_n": {"quick": 100, "thorough": 2000},
         "rule": "correspondence: ExpandSpec on generated multi-document reference graphs (1-5 documents in the same/sub/parent directories and an http host; local, sibling, ./ ../, root-relative and absolute refs; nested-pointer and whole-document targets; escaped names; refs at every sub-schema keyword; parameters/responses/path items by $ref; cycles of every small topology; fault injection; all option combinations) + a bounded-exhaustive sample of graphs over <=3 definitions x <=2 documents; oracle: every definition/parameter/response of every root through each entry point (typed root, generic root, nil root + base location): the result's unfolding equals the element's unfolding in the root; root and caller options serialised before and after are unchanged",
@@ -337,7 +337,7 @@ PROPS = {
         "assumptions": ["sync.Once"],
     },
     "C17": {
-        "extra_oracles": ["C17meta"],
+        "extra_oracles": ["C17meta", "C17typed"],
         "props": "theories/Props/C17.v", "gens": [("globals", "Cache/Gen_Globals.v")],
         "n": {"quick": 60, "thorough": 600}, "oracle_n": {"quick": 60, "thorough": 600},
         "race": True,
